@@ -108,6 +108,16 @@ class Build:
                 if f3_unsatisfiable(ranges, overlaps):
                     overlaps = None      # the multiplexer refuses a sharing limit no shadow size can satisfy (F3, fixed)
             mux = csr.Multiplexer(mm, shadow_overlaps=overlaps)
+            if overlaps is None and rng.random() < 0.3:
+                # a register added after the Multiplexer object exists (its map is not frozen yet)
+                w = rng.randint(1, 2 * dw)
+                p = Probe(w, rng.choice(["r", "w", "rw"]))
+                try:
+                    mm.add_resource(p, name=(self.uid("late"),), size=max(1, (w + dw - 1) // dw))
+                    if p.element.access.readable():
+                        self.probe_inputs.append((p.element.r_data, w))
+                except ValueError:
+                    pass
             self.add_mod(mux)
             self.kinds.add("multiplexer")
             self.claims[id(mm)] = "csr"
@@ -213,6 +223,14 @@ class Build:
             if rng.random() < 0.2:
                 mm_ = dec.bus.memory_map     # read-only queries on a partly built decoder
                 list(mm_.window_patterns()), list(mm_.all_resources())
+            if rng.random() < 0.1:
+                from amaranth.hdl import Fragment
+                Fragment.get(dec, None)      # bring-up elaboration of the partly built decoder
+            if rng.random() < 0.1:
+                try:
+                    dec.add(sub)             # duplicate add: refused, nothing may change
+                except ValueError:
+                    pass
         return dec.bus
 
     # ---- Wishbone side -------------------------------------------------------------------------
@@ -270,8 +288,16 @@ class Build:
                 kw["addr"] = rng.randrange(1 << map_aw) // size * size
             try:
                 dec.add(sub, name=None if rng.random() < 0.5 else self.uid("w"), **kw)
+                if rng.random() < 0.1:
+                    try:
+                        dec.add(sub)         # duplicate add: refused, nothing may change
+                    except ValueError:
+                        pass
             except ValueError:
                 pass
+            if rng.random() < 0.1:
+                from amaranth.hdl import Fragment
+                Fragment.get(dec, None)      # bring-up elaboration of the partly built decoder
         return dec.bus
 
 
